@@ -340,7 +340,9 @@ func OpenFile(name string, flag int, perm os.FileMode) (*File, error) {
 		err = pathErr("open", name, syscall.EISDIR)
 	}
 	if err != nil {
-		f.trace(Call{Op: "open", Path: p, Flag: flag, Res: errStr(err)})
+		if f.Tracing {
+			f.trace(Call{Op: "open", Path: p, Flag: flag, Res: errStr(err)})
+		}
 		return nil, err
 	}
 	if !ok {
@@ -356,7 +358,9 @@ func OpenFile(name string, flag int, perm os.FileMode) (*File, error) {
 	}
 	f.nextH++
 	fl := &File{fs: f, n: n, name: name, flag: flag, h: f.nextH}
-	f.trace(Call{Op: "open", Path: p, Flag: flag, H: fl.h, Res: "ok"})
+	if f.Tracing {
+		f.trace(Call{Op: "open", Path: p, Flag: flag, H: fl.h, Res: "ok"})
+	}
 	return fl, nil
 }
 
@@ -377,7 +381,9 @@ func (fl *File) Close() error {
 		return pathErr("close", fl.name, os.ErrClosed)
 	}
 	fl.closed = true
-	fl.fs.trace(Call{Op: "close", H: fl.h, Res: "ok"})
+	if fl.fs.Tracing {
+		fl.fs.trace(Call{Op: "close", H: fl.h, Res: "ok"})
+	}
 	return nil
 }
 
@@ -401,7 +407,9 @@ func (fl *File) Read(b []byte) (int, error) {
 	point("fs:read")
 	n, err := fl.readAt(b, fl.off, false)
 	fl.off += int64(n)
-	fl.fs.trace(Call{Op: "read", H: fl.h, N: len(b), Res: fmt.Sprintf("%d %s %s", n, errStr(err), sum(b[:n]))})
+	if fl.fs.Tracing {
+		fl.fs.trace(Call{Op: "read", H: fl.h, N: len(b), Res: fmt.Sprintf("%d %s %s", n, errStr(err), sum(b[:n]))})
+	}
 	return n, err
 }
 
@@ -434,7 +442,9 @@ func (fl *File) ReadAt(b []byte, off int64) (int, error) {
 	}
 	point("fs:readat")
 	n, err := fl.readAt(b, off, true)
-	fl.fs.trace(Call{Op: "readat", H: fl.h, N: len(b), Off: off, Res: fmt.Sprintf("%d %s %s", n, errStr(err), sum(b[:n]))})
+	if fl.fs.Tracing {
+		fl.fs.trace(Call{Op: "readat", H: fl.h, N: len(b), Off: off, Res: fmt.Sprintf("%d %s %s", n, errStr(err), sum(b[:n]))})
+	}
 	return n, err
 }
 
@@ -453,7 +463,9 @@ func (fl *File) Write(b []byte) (int, error) {
 	point("fs:write")
 	if !fl.writable() {
 		err := pathErr("write", fl.name, syscall.EBADF)
-		fl.fs.trace(Call{Op: "write", H: fl.h, Data: append([]byte(nil), b...), Res: "0 " + errStr(err)})
+		if fl.fs.Tracing {
+			fl.fs.trace(Call{Op: "write", H: fl.h, Data: append([]byte(nil), b...), Res: "0 " + errStr(err)})
+		}
 		return 0, err
 	}
 	off := fl.off
@@ -462,7 +474,9 @@ func (fl *File) Write(b []byte) (int, error) {
 	}
 	fl.writeAt(b, off)
 	fl.off = off + int64(len(b))
-	fl.fs.trace(Call{Op: "write", H: fl.h, Data: append([]byte(nil), b...), Res: fmt.Sprintf("%d ok", len(b))})
+	if fl.fs.Tracing {
+		fl.fs.trace(Call{Op: "write", H: fl.h, Data: append([]byte(nil), b...), Res: fmt.Sprintf("%d ok", len(b))})
+	}
 	return len(b), nil
 }
 
@@ -493,7 +507,9 @@ func (fl *File) WriteAt(b []byte, off int64) (int, error) {
 		return 0, pathErr("write", fl.name, syscall.EBADF)
 	}
 	fl.writeAt(b, off)
-	fl.fs.trace(Call{Op: "writeat", H: fl.h, Off: off, Data: append([]byte(nil), b...), Res: fmt.Sprintf("%d ok", len(b))})
+	if fl.fs.Tracing {
+		fl.fs.trace(Call{Op: "writeat", H: fl.h, Off: off, Data: append([]byte(nil), b...), Res: fmt.Sprintf("%d ok", len(b))})
+	}
 	return len(b), nil
 }
 
@@ -515,11 +531,15 @@ func (fl *File) Seek(offset int64, whence int) (int64, error) {
 	}
 	if base+offset < 0 {
 		err := pathErr("seek", fl.name, syscall.EINVAL)
-		fl.fs.trace(Call{Op: "seek", H: fl.h, Off: offset, Whence: whence, Res: "0 " + errStr(err)})
+		if fl.fs.Tracing {
+			fl.fs.trace(Call{Op: "seek", H: fl.h, Off: offset, Whence: whence, Res: "0 " + errStr(err)})
+		}
 		return 0, err
 	}
 	fl.off = base + offset
-	fl.fs.trace(Call{Op: "seek", H: fl.h, Off: offset, Whence: whence, Res: fmt.Sprintf("%d ok", fl.off)})
+	if fl.fs.Tracing {
+		fl.fs.trace(Call{Op: "seek", H: fl.h, Off: offset, Whence: whence, Res: fmt.Sprintf("%d ok", fl.off)})
+	}
 	return fl.off, nil
 }
 
@@ -532,7 +552,9 @@ func (fl *File) Stat() (os.FileInfo, error) {
 	}
 	point("fs:fstat")
 	fi := &fileInfo{name: filepath.Base(fl.name), size: int64(len(fl.n.data)), dir: fl.n.dir}
-	fl.fs.trace(Call{Op: "fstat", H: fl.h, Res: fmt.Sprintf("%d %v ok", fi.size, fi.dir)})
+	if fl.fs.Tracing {
+		fl.fs.trace(Call{Op: "fstat", H: fl.h, Res: fmt.Sprintf("%d %v ok", fi.size, fi.dir)})
+	}
 	return fi, nil
 }
 
@@ -545,7 +567,9 @@ func (fl *File) Truncate(size int64) error {
 	}
 	point("fs:truncate")
 	fl.fs.truncInode(fl.n, fl.name, size)
-	fl.fs.trace(Call{Op: "ftruncate", H: fl.h, Off: size, Res: "ok"})
+	if fl.fs.Tracing {
+		fl.fs.trace(Call{Op: "ftruncate", H: fl.h, Off: size, Res: "ok"})
+	}
 	return nil
 }
 
@@ -586,15 +610,21 @@ func Stat(name string) (os.FileInfo, error) {
 	n, ok := f.nodes[p]
 	if !ok {
 		err := pathErr("stat", name, syscall.ENOENT)
-		f.trace(Call{Op: "stat", Path: p, Res: errStr(err)})
+		if f.Tracing {
+			f.trace(Call{Op: "stat", Path: p, Res: errStr(err)})
+		}
 		return nil, err
 	}
 	fi := &fileInfo{name: filepath.Base(p), size: int64(len(n.data)), dir: n.dir}
 	if f.Tracing {
 		if n.dir {
-			f.trace(Call{Op: "stat", Path: p, Res: "dir ok"})
+			if f.Tracing {
+				f.trace(Call{Op: "stat", Path: p, Res: "dir ok"})
+			}
 		} else {
-			f.trace(Call{Op: "stat", Path: p, Res: fmt.Sprintf("%d ok", fi.size)})
+			if f.Tracing {
+				f.trace(Call{Op: "stat", Path: p, Res: fmt.Sprintf("%d ok", fi.size)})
+			}
 		}
 	}
 	return fi, nil
@@ -626,7 +656,9 @@ func Rename(oldp, newp string) error {
 		f.nodes[b] = n
 		f.logMut(Mut{Op: "rename", Path: a, Path2: b, Ino: n.ino})
 	}
-	f.trace(Call{Op: "rename", Path: a, Path2: b, Res: errStr(err)})
+	if f.Tracing {
+		f.trace(Call{Op: "rename", Path: a, Path2: b, Res: errStr(err)})
+	}
 	return err
 }
 
@@ -657,7 +689,9 @@ func Remove(name string) error {
 		delete(f.nodes, p)
 		f.logMut(Mut{Op: "remove", Path: p, Ino: n.ino})
 	}
-	f.trace(Call{Op: "remove", Path: p, Res: errStr(err)})
+	if f.Tracing {
+		f.trace(Call{Op: "remove", Path: p, Res: errStr(err)})
+	}
 	return err
 }
 
@@ -682,7 +716,9 @@ func RemoveAll(name string) error {
 	if found {
 		f.logMut(Mut{Op: "removeall", Path: p})
 	}
-	f.trace(Call{Op: "removeall", Path: p, Res: "ok"})
+	if f.Tracing {
+		f.trace(Call{Op: "removeall", Path: p, Res: "ok"})
+	}
 	return nil
 }
 
@@ -719,7 +755,9 @@ func Truncate(name string, size int64) error {
 	} else {
 		f.truncInode(n, p, size)
 	}
-	f.trace(Call{Op: "truncate", Path: p, Off: size, Res: errStr(err)})
+	if f.Tracing {
+		f.trace(Call{Op: "truncate", Path: p, Off: size, Res: errStr(err)})
+	}
 	return err
 }
 
@@ -742,7 +780,9 @@ func Mkdir(name string, perm os.FileMode) error {
 		f.nodes[p] = &inode{dir: true}
 		f.logMut(Mut{Op: "mkdir", Path: p})
 	}
-	f.trace(Call{Op: "mkdir", Path: p, Res: errStr(err)})
+	if f.Tracing {
+		f.trace(Call{Op: "mkdir", Path: p, Res: errStr(err)})
+	}
 	return err
 }
 
@@ -769,7 +809,9 @@ func MkdirAll(name string, perm os.FileMode) error {
 			f.logMut(Mut{Op: "mkdir", Path: p})
 		}
 	}
-	f.trace(Call{Op: "mkdirall", Path: p, Res: errStr(err)})
+	if f.Tracing {
+		f.trace(Call{Op: "mkdirall", Path: p, Res: errStr(err)})
+	}
 	return err
 }
 
@@ -786,16 +828,22 @@ func ReadFile(name string) ([]byte, error) {
 	n, ok := f.nodes[p]
 	if !ok {
 		err := pathErr("open", name, syscall.ENOENT)
-		f.trace(Call{Op: "readfile", Path: p, Res: errStr(err)})
+		if f.Tracing {
+			f.trace(Call{Op: "readfile", Path: p, Res: errStr(err)})
+		}
 		return nil, err
 	}
 	if n.dir {
 		err := pathErr("read", name, syscall.EISDIR)
-		f.trace(Call{Op: "readfile", Path: p, Res: errStr(err)})
+		if f.Tracing {
+			f.trace(Call{Op: "readfile", Path: p, Res: errStr(err)})
+		}
 		return nil, err
 	}
 	out := append([]byte{}, n.data...)
-	f.trace(Call{Op: "readfile", Path: p, Res: fmt.Sprintf("%d %s ok", len(out), sum(out))})
+	if f.Tracing {
+		f.trace(Call{Op: "readfile", Path: p, Res: fmt.Sprintf("%d %s ok", len(out), sum(out))})
+	}
 	return out, nil
 }
 
@@ -828,9 +876,6 @@ func Glob(pattern string) ([]string, error) {
 		return nil, nil
 	}
 	point("fs:glob")
-	if _, err := filepath.Match(pattern, ""); err != nil {
-		return nil, err
-	}
 	dir, base := filepath.Split(pattern)
 	dirc := clean(dir)
 	if strings.ContainsAny(dir, "*?[") {
@@ -842,19 +887,36 @@ func Glob(pattern string) ([]string, error) {
 			out = []string{pattern}
 		}
 	} else if d, ok := f.nodes[dirc]; ok && d.dir {
+		pre := dirc + "/"
+		if dirc == "/" {
+			pre = "/"
+		}
 		for p := range f.nodes {
-			if p != dirc && filepath.Dir(p) == dirc {
-				if m, _ := filepath.Match(base, filepath.Base(p)); m {
-					if dir == "" {
-						out = append(out, filepath.Base(p))
-					} else {
-						out = append(out, filepath.Join(dirc, filepath.Base(p)))
-					}
+			if len(p) <= len(pre) || !strings.HasPrefix(p, pre) || strings.IndexByte(p[len(pre):], '/') >= 0 {
+				if !(dirc == "." && strings.IndexByte(p, '/') < 0) {
+					continue
+				}
+			}
+			name := p
+			if dirc != "." {
+				name = p[len(pre):]
+			}
+			m, err := filepath.Match(base, name)
+			if err != nil {
+				return nil, err
+			}
+			if m {
+				if dir == "" {
+					out = append(out, name)
+				} else {
+					out = append(out, pre+name)
 				}
 			}
 		}
 		sort.Strings(out)
 	}
-	f.trace(Call{Op: "glob", Path: pattern, Res: fmt.Sprintf("%d %s", len(out), sum([]byte(strings.Join(out, "\n"))))})
+	if f.Tracing {
+		f.trace(Call{Op: "glob", Path: pattern, Res: fmt.Sprintf("%d %s", len(out), sum([]byte(strings.Join(out, "\n"))))})
+	}
 	return out, nil
 }
